@@ -366,6 +366,28 @@ func (m *Model) create(n int, comps []int, rel int, target int8, val uint64s) (C
 
 type uint64s = [8]uint64
 
+// nextVal is the token the next write to component ci of slot s stores: one of two handle-specific tokens,
+// always different from the current value, so that every write is observable while the value domain stays small.
+func (m *Model) nextVal(s int, ci int) uint64 {
+	e := &m.Slots[s]
+	k := m.cfg.Comps[ci]
+	v := narrow(k, token(e.H, ci, 1))
+	if e.Val[ci] == v {
+		v = narrow(k, token(e.H, ci, 2))
+	}
+	return v
+}
+
+// nextTok is nextVal before narrowing (what the harness actually writes).
+func (m *Model) nextTok(s int, ci int) uint64 {
+	e := &m.Slots[s]
+	k := m.cfg.Comps[ci]
+	if e.Val[ci] == narrow(k, token(e.H, ci, 1)) {
+		return token(e.H, ci, 2)
+	}
+	return token(e.H, ci, 1)
+}
+
 func (m *Model) creationValues(comps []int, j int) uint64s {
 	var v uint64s
 	if j == 0 {
@@ -467,7 +489,7 @@ func (m *Model) Step(op wx.Op) Expect {
 		c, why := m.exchange(int(op.A), lst(op.B), nil, false, 0, 0)
 		if c == ClsOK {
 			e := &m.Slots[op.A]
-			e.Val[op.B] = narrow(m.cfg.Comps[op.B], token(e.H, int(op.B), int(op.C)))
+			e.Val[op.B] = m.nextVal(int(op.A), int(op.B))
 		}
 		return set(c, why)
 	case OpSet, OpWriteGet, OpWriteQuery:
@@ -484,7 +506,7 @@ func (m *Model) Step(op wx.Op) Expect {
 			}
 			return set(ClsMustPanic, "component-missing")
 		}
-		e.Val[op.B] = narrow(m.cfg.Comps[op.B], token(e.H, int(op.B), int(op.C)))
+		e.Val[op.B] = m.nextVal(int(op.A), int(op.B))
 		return set(ClsOK, "")
 	case OpRelGet:
 		e := &m.Slots[op.A]
